@@ -23,8 +23,8 @@ let rmap_str (m : (nat * c04_lists) list) =
     (String.concat " " (List.map (fun (q, (s, r)) -> Printf.sprintf "%d:S[%s]R[%s]" (int_of_nat q) (elist s) (elist r)) m))
 let res_str = function C04_Ok m -> rmap_str m | C04_OutOfFuel -> "OUTOFFUEL" | C04_Mixed -> "MIXED"
 
-let () =
-  let ic = open_in Sys.argv.(1) in
+let main_cases file =
+  let ic = open_in file in
   (try while true do
     let line = input_line ic in
     let toks = ref (List.filter (fun s -> s <> "") (String.split_on_char ' ' (String.trim line))) in
@@ -66,3 +66,76 @@ let () =
       print_string model; print_string " | "; print_endline spec end
     with Failure m -> print_endline ("BADCASE " ^ m ^ " | BADCASE"))
   done with End_of_file -> ())
+
+(* ---- object histories (argv: hist <file>) -------------------------------------------------------------------------
+   Case line (integers):
+     P two seed M   then M decompositions (for each rank: src set, dst set)
+     NS  m_0 .. m_{NS-1}                    initial content D[m_j] of index-set pair (slot) j
+     kind slot hintflag inc [hints]         construction: kind 0 RemoteIndices(S,T,comm,hints,inc); kind 1 RemoteIndices() +
+                                            setIndexSets(S,T,comm[,hints]) + setIncludeSelf(inc);  hints = per rank: nn q*nn
+     nops, then ops:  1 slot hintflag [hints] setIndexSets | 2 hints setNeighbours | 3 b setIncludeSelf | 4 free
+                      | 5 ign cmpinc rebuild<ign> (observed) | 6 slot ws wd m resize of slot towards D[m]
+   Observation per rank:  r<p> then per rebuild  [b=<isSynced before> s=<after> nb=<n> gn=<getNeighbours> eq=<1> {map}]
+   (spec: b=? where isSynced is not determined by the property: no build since construction/setIndexSets/free)          *)
+let main_hist file =
+  let ic = open_in file in
+  (try while true do
+    let line = input_line ic in
+    let toks = ref (List.filter (fun s -> s <> "") (String.split_on_char ' ' (String.trim line))) in
+    let next () = match !toks with [] -> failwith "short case" | t :: r -> toks := r; int_of_string t in
+    (try
+      let p = next () in let two = next () = 1 in let _seed = next () in let m = next () in
+      let rset () = let n = next () in List.init n (fun _ -> let g = next () in let li = next () in let a = next () in let pb = next () in
+                       { c04_g = nat_of_int g; c04_li = nat_of_int li; c04_attr = nat_of_int a; c04_pub = (pb = 1) }) in
+      let rdecomp () = List.init p (fun _ -> let s = rset () in let t = rset () in (s, t)) in
+      let ds = Array.init m (fun _ -> rdecomp ()) in
+      let ns = next () in
+      let one = Zpos XH in
+      let slots = List.init ns (fun _ -> let mi = next () in { c04_sl_content = ds.(mi); c04_sl_srcSeq = one; c04_sl_dstSeq = one }) in
+      let rhints () = List.init p (fun _ -> let n = next () in List.init n (fun _ -> nat_of_int (next ()))) in
+      let ropt () = if next () = 1 then Some (rhints ()) else None in
+      let kind = next () in let slot = nat_of_int (next ()) in let hf = next () in let inc = next () = 1 in
+      let hints0 = if hf = 1 then Some (rhints ()) else None in
+      let np = nat_of_int p in
+      let buildf = c04_obj_buildf two in
+      let sbuildf d ig ic _ = List.init p (fun r -> C04_Ok (c04_spec_rank ig two ic d (nat_of_int r))) in
+      let noh = List.init p (fun _ -> []) in
+      let y = ref { c04_sy_two = two; c04_sy_P = np; c04_sy_slots = slots;
+                    c04_sy_obj = (if kind = 0 then c04_obj_ctor slot (match hints0 with Some h -> h | None -> noh) inc else c04_obj_default np) } in
+      let h = ref { c04_hs_two = two; c04_hs_P = np; c04_hs_contents = List.map (fun s -> s.c04_sl_content) slots;
+                    c04_hs_slot = (if kind = 0 then Some slot else None);
+                    c04_hs_hints = (if kind = 0 then List.map c04_set_of (match hints0 with Some h -> h | None -> noh) else noh);
+                    c04_hs_incself = (if kind = 0 then inc else false); c04_hs_built = None; c04_hs_stale = false; c04_hs_map = None } in
+      let mobs = Array.make p "" and sobs = Array.make p "" in
+      let apply op = y := c04_hstep buildf !y op; h := c04_hspec_step sbuildf !h op in
+      if kind = 1 then begin apply (C04_HSetIndexSets (slot, hints0)); apply (C04_HSetIncludeSelf inc) end;
+      let nops = next () in
+      let gn l = String.concat "," (List.map (fun q -> string_of_int (int_of_nat q)) l) in
+      let mpstr mp r = match mp with None -> "NOMAP" | Some l -> res_str (List.nth l r) in
+      for _ = 1 to nops do
+        match next () with
+        | 1 -> let s = nat_of_int (next ()) in let hi = ropt () in apply (C04_HSetIndexSets (s, hi))
+        | 2 -> let hi = rhints () in apply (C04_HSetNeighbours hi)
+        | 3 -> let b = next () = 1 in apply (C04_HSetIncludeSelf b)
+        | 4 -> apply C04_HFree
+        | 5 -> let ig = next () = 1 in let _cmpinc = next () in
+               let mb = b01 (c04_obj_synced !y) in
+               let sb = (match (!h).c04_hs_built with None -> "?" | Some _ -> b01 (not (!h).c04_hs_stale)) in
+               apply (C04_HRebuild ig);
+               for r = 0 to p - 1 do
+                 mobs.(r) <- mobs.(r) ^ Printf.sprintf " [b=%s s=%s gn=%s eq=1 %s]" mb (b01 (c04_obj_synced !y))
+                               (gn (List.nth (!y).c04_sy_obj.c04_ob_hints r)) (mpstr (!y).c04_sy_obj.c04_ob_map r);
+                 sobs.(r) <- sobs.(r) ^ Printf.sprintf " [b=%s s=1 gn=%s eq=1 %s]" sb
+                               (gn (List.nth (!h).c04_hs_hints r)) (mpstr (!h).c04_hs_map r)
+               done
+        | 6 -> let s = nat_of_int (next ()) in let ws = next () = 1 in let wd = next () = 1 in let mi = next () in
+               apply (C04_HResize (s, ws, wd, ds.(mi)))
+        | _ -> failwith "bad op"
+      done;
+      let join a = String.concat " ; " (List.init p (fun r -> Printf.sprintf "r%d%s" r a.(r))) in
+      print_string (join mobs); print_string " | "; print_endline (join sobs)
+    with Failure msg -> print_endline ("BADCASE " ^ msg ^ " | BADCASE"))
+  done with End_of_file -> ())
+
+let () =
+  if Array.length Sys.argv >= 3 && Sys.argv.(1) = "hist" then main_hist Sys.argv.(2) else main_cases Sys.argv.(1)
